@@ -151,6 +151,10 @@ func genC14() {
 	cuF := parse("amd/timing/cu/computeunit.go")
 	vmu := parse("amd/timing/cu/vectormemoryunit.go")
 	emu := parse("amd/emu/computeunit.go")
+	cub := parse("amd/timing/cu/cubuilder.go")
+	mi3 := parse("amd/samples/runner/timingconfig/mi300a/builder.go")
+	sha := parse("amd/samples/runner/timingconfig/shaderarray/builder.go")
+	pipe := c05Parse(filepath.Join(c05GoList(root, "{{.Dir}}", "github.com/sarchlab/akita/v4/pipelining"), "pipeline.go"), "akita/pipelining/pipeline.go")
 
 	var b strings.Builder
 	b.WriteString("-- GENERATED by translate/c14.go from amd/timing/cu, amd/timing/wavefront and amd/emu. Do not edit.\n")
@@ -310,6 +314,87 @@ func genC14() {
 	}
 	fmt.Fprintf(&b, "/-- `processInputFromVectorMem`: responses handled per cycle -/\ndef vectorResponsesPerCycle : Nat := %s\n", perCycle[0])
 
+	// the vector memory unit's transaction pipeline
+	b.WriteString("\n")
+	mb := cub.fn("MakeBuilder")
+	fmt.Fprintf(&b, "/-- `cu.MakeBuilder` defaults (the r9nano platform keeps them): transaction pipeline stages, lanes, post-pipeline buffer -/\ndef vmuDefault : Nat × Nat × Nat := (%d, %d, %d)\n",
+		c14AssignInt(cub, mb, "b.vecMemTransPipelineStages"), c14AssignInt(cub, mb, "b.vecMemTransPipelineWidth"), c14AssignInt(cub, mb, "b.memPipelineBufferSize"))
+	callArg := func(c *c05File, fn string) int64 {
+		var vals []int64
+		ast.Inspect(c.f, func(n ast.Node) bool {
+			if call, ok := n.(*ast.CallExpr); ok && len(call.Args) == 1 {
+				if sel, ok := call.Fun.(*ast.SelectorExpr); ok && sel.Sel.Name == fn {
+					if v, ok := constInt(call.Args[0], nil); ok {
+						vals = append(vals, v)
+					}
+				}
+			}
+			return true
+		})
+		if len(vals) != 1 {
+			fatalf("c14: %s: expected exactly one call %s(<literal>), found %d", c.rel, fn, len(vals))
+		}
+		return vals[0]
+	}
+	fmt.Fprintf(&b, "/-- the mi300a platform: `WithVecMemTransPipelineStages`, `…Width`, `WithCUMemPipelineBufferSize`, `WithMaxCoalescingPenalty` -/\ndef vmuMI300A : Nat × Nat × Nat × Nat := (%d, %d, %d, %d)\n",
+		callArg(mi3, "WithVecMemTransPipelineStages"), callArg(mi3, "WithVecMemTransPipelineWidth"), callArg(mi3, "WithCUMemPipelineBufferSize"), callArg(mi3, "WithMaxCoalescingPenalty"))
+	// the shader-array builder hands cuMemPipelineBufferSize to the compute unit's WithMemPipelineBufferSize
+	handed := false
+	ast.Inspect(sha.f, func(n ast.Node) bool {
+		if call, ok := n.(*ast.CallExpr); ok && len(call.Args) == 1 && c05Text(call.Args[0]) == "b.cuMemPipelineBufferSize" {
+			if sel, ok := call.Fun.(*ast.SelectorExpr); ok && sel.Sel.Name == "WithMemPipelineBufferSize" {
+				handed = true
+			}
+		}
+		return true
+	})
+	if !handed {
+		fatalf("c14: shaderarray/builder.go: cuMemPipelineBufferSize is no longer passed to the compute unit's WithMemPipelineBufferSize")
+	}
+	// cyclePerStage of the transaction pipeline, the burst of sendRequest, the clamp of the buffer size
+	var cps []int64
+	ast.Inspect(cub.f, func(n ast.Node) bool {
+		if call, ok := n.(*ast.CallExpr); ok && len(call.Args) == 1 {
+			if sel, ok := call.Fun.(*ast.SelectorExpr); ok && sel.Sel.Name == "WithCyclePerStage" {
+				if v, ok := constInt(call.Args[0], nil); ok {
+					cps = append(cps, v)
+				}
+			}
+		}
+		return true
+	})
+	for _, v := range cps {
+		if v != 1 {
+			fatalf("c14: cubuilder.go: a pipeline is built WithCyclePerStage(%d); the model C14.Vmu assumes 1", v)
+		}
+	}
+	fmt.Fprintf(&b, "/-- `cubuilder.go`: every pipeline of the compute unit is built `WithCyclePerStage(1)` (%d pipelines) -/\ndef cyclePerStage : Nat := 1\n", len(cps))
+	var burst []string
+	ast.Inspect(vmu.fn("VectorMemoryUnit.sendRequest").Body, func(n ast.Node) bool {
+		if f, ok := n.(*ast.ForStmt); ok && f.Cond != nil {
+			if be, ok := f.Cond.(*ast.BinaryExpr); ok && be.Op == token.LSS {
+				if v, ok := constInt(be.Y, nil); ok {
+					burst = append(burst, strconv.FormatInt(v, 10))
+				}
+			}
+		}
+		return true
+	})
+	if len(burst) != 1 {
+		fatalf("c14: VectorMemoryUnit.sendRequest: expected one counted loop, found %d", len(burst))
+	}
+	fmt.Fprintf(&b, "/-- `VectorMemoryUnit.sendRequest`: requests per cycle -/\ndef vmuBurst : Nat := %s\n", burst[0])
+	var runCalls []string
+	ast.Inspect(vmu.fn("VectorMemoryUnit.Run").Body, func(n ast.Node) bool {
+		if call, ok := n.(*ast.CallExpr); ok {
+			if t := c05Text(call.Fun); strings.HasPrefix(t, "u.") {
+				runCalls = append(runCalls, t)
+			}
+		}
+		return true
+	})
+	fmt.Fprintf(&b, "/-- `VectorMemoryUnit.Run`: the stages, in order -/\ndef vmuRunOrder : List String := %s\n", c14StrList(runCalls))
+
 	// hashes
 	type hf struct {
 		c     *c05File
@@ -332,7 +417,11 @@ func genC14() {
 			"ComputeUnit.reInsertShadowBufferReqsToOriginalBuffers", "ComputeUnit.checkShadowBuffers", "ComputeUnit.sendOutShadowBufferReqs",
 			"ComputeUnit.sendScalarShadowBufferAccesses", "ComputeUnit.sendVectorShadowBufferAccesses", "ComputeUnit.sendInstFetchShadowBufferAccesses",
 			"ComputeUnit.populateShadowBuffers", "ComputeUnit.setWavesToReady"}},
-		{vmu, []string{"VectorMemoryUnit.executeFlatLoad", "VectorMemoryUnit.executeFlatStore", "VectorMemoryUnit.sendRequest", "VectorMemoryUnit.Flush"}},
+		{vmu, []string{"VectorMemoryUnit.Run", "VectorMemoryUnit.instToTransaction", "VectorMemoryUnit.insertTransactionToPipeline",
+			"VectorMemoryUnit.computeCoalescingPenalty", "VectorMemoryUnit.executeFlatLoad", "VectorMemoryUnit.executeFlatStore",
+			"VectorMemoryUnit.sendRequest", "VectorMemoryUnit.Flush"}},
+		{pipe, []string{"pipelineImpl.Clear", "pipelineImpl.Tick", "pipelineImpl.tryMoveToPostPipelineBuffer", "pipelineImpl.tryMoveToNextStage",
+			"pipelineImpl.CanAccept", "pipelineImpl.Accept"}},
 		{emu, []string{"ComputeUnit.runWG", "ComputeUnit.isAllWfCompleted", "ComputeUnit.resolveBarrier"}},
 	} {
 		for _, n := range h.names {
